@@ -130,6 +130,26 @@ pub fn c14(tier: &str, seed: u64) -> Vec<Case> {
                 }
             }
         }
+        // IPSECKEY with each of its four gateway shapes (none, IPv4, IPv6, a name) and an unassigned one, cut at every
+        // length - built on the wire, so that every shape is there whatever the generator draws
+        for gateway in [vec![0u8], vec![1, 192, 0, 2, 1], { let mut x = vec![2u8]; x.extend_from_slice(&[0x20, 1, 0x0d, 0xb8, 0, 0, 0, 0, 0, 0, 0, 0, 0, 0, 0, 1]); x }, vec![3, 2, b'g', b'w', 3, b'o', b'r', b'g', 0], vec![9, 1, 2, 3]] {
+            let mut rdata = vec![10u8, gateway[0], 2];
+            rdata.extend_from_slice(&gateway[1..]);
+            rdata.extend_from_slice(&[0xAA, 0xBB, 0xCC, 0xDD, 0xEE]);
+            let owner = mk_name(&{ let mut f = vec![b"peer".to_vec()]; f.extend(service.clone()); f });
+            for k in 0..=rdata.len() {
+                for flags in [0x84u8, 0x00] {
+                    let mut m = vec![0u8, 0, flags, 0, 0, 0, 0, 1, 0, 0, 0, 0];
+                    if flags == 0 { m[7] = 0; m[9] = 1; }
+                    for l in owner.get_labels() { m.push(l.len() as u8); m.extend_from_slice(l.as_bytes()); }
+                    m.push(0);
+                    m.extend_from_slice(&[0, 45, 0, 1, 0, 0, 0, 120]);
+                    m.extend_from_slice(&(k as u16).to_be_bytes());
+                    m.extend_from_slice(&rdata[..k]);
+                    d.push((m, "rdata-cut".into()));
+                }
+            }
+        }
         // OPT options whose length field is at the top of the 16-bit range, with an RDLENGTH that fits the
         // datagram, one that does not, and the largest
         for olen in [0x7FFFu16, 0x8000, 0xFFFB, 0xFFFC, 0xFFFD, 0xFFFE, 0xFFFF] { for flags in [0u8, 0x84] { for rdlen in [4u16, 8, 0xFFFF] {
